@@ -61,12 +61,15 @@ func checkC14(p *Prog, r *Report) {
 	r.rule("C14.L3", "fields of the shared Snmp counters are only touched through sync/atomic (locals from newSnmp()/Copy() exempt)", 30)
 	r.rule("C14.L4", "fields written after construction without a lock are accepted only when every accessing function is reachable from exactly one goroutine entry (go statement executed once per object)", 5)
 	r.rule("C14.L9", "memory guarded by different mutexes is different memory: the encrypt and decrypt feedback registers of a cipher object (encMu / decMu) are separate make() allocations (= C08.K5 scratch) — slices of one slab that overlap are written by an encryptor and a decryptor at the same time although every access holds 'its' lock", 1)
+	r.rule("C14.L10", "memory of a third-party object reached under different mutexes: the cipher.Block a blockCrypt hands to Encrypt (encMu) and Decrypt (decMu) is one object only if its block methods never write it (= C08.K10, finding F13)", 8)
+	r.rule("C14.L11", "one discipline per field: a field that is reached through sync/atomic anywhere after construction is reached through sync/atomic everywhere (Snmp counters: L3) — an atomic load in a lock-free getter does not synchronise with plain stores made under the session mutex", 1)
 	r.rule("C14.L8", "buffers of the global pool have one owner at a time: a buffer that is recycled twice (or used after its recycle) is handed to two sessions, whose goroutines then read and write the same bytes under different mutexes (= C15.O1, O2, O6)", 8)
 	r.rule("C14.L7", "package-level variables are stored only during package initialisation (exception, frozen: entropy via SetEntropy = package configuration)", 1)
 	for _, fr := range []string{"C15.O1", "C15.O2", "C15.O6"} {
 		checkCipherScratch(p, r, "C14.L9")
 		delegate(p, r, "C15", checkC15, fr, "C14.L8")
 	}
+	checkCipherObjectPerDirection(p, r, "C14.L10")
 	la := p.Locks()
 
 	groups := map[string]*fieldAccessGroup{}
@@ -87,6 +90,12 @@ func checkC14(p *Prog, r *Report) {
 	}
 	sort.Strings(owners)
 	guardMap := map[string]string{}
+	nAtomicFields, mixedFields := 0, 0
+	defer func() {
+		if mixedFields == 0 {
+			r.ok("C14.L11", "package", "-", "atomic and plain access to one field", fmt.Sprintf("no field outside Snmp is reached both through sync/atomic and by ordinary loads/stores after construction (%d fields with sync/atomic access, %d fields examined)", nAtomicFields, len(owners)))
+		}
+	}()
 	for _, owner := range owners {
 		g := groups[owner]
 		typ := strings.SplitN(owner, ".", 2)[0]
@@ -119,13 +128,49 @@ func checkC14(p *Prog, r *Report) {
 		// is it stored after construction?
 		var post []Access
 		written := false
+		var atomics []Access
 		for _, a := range g.accs {
+			if a.Atomic && !a.Fresh {
+				atomics = append(atomics, a)
+			}
 			if a.Fresh || a.Atomic {
 				continue
 			}
 			post = append(post, a)
 			if a.Write {
 				written = true
+			}
+		}
+		// L11: one discipline per field — a field reached through sync/atomic somewhere is reached through it everywhere
+		if len(atomics) > 0 {
+			nAtomicFields++
+			// harmless when every access, atomic or not, holds one common lock (the atomic form is then redundant)
+			common := map[string]bool{}
+			for i, x := range append(append([]Access{}, atomics...), post...) {
+				here := map[string]bool{}
+				for c := range x.Held {
+					here[strings.TrimSuffix(c, "(R)")] = true
+				}
+				if i == 0 {
+					common = here
+					continue
+				}
+				for c := range common {
+					if !here[c] {
+						delete(common, c)
+					}
+				}
+			}
+			if len(post) > 0 && len(common) == 0 {
+				mixedFields++
+				a, b := atomics[0], post[0]
+				for _, x := range post {
+					if x.Write {
+						b = x
+						break
+					}
+				}
+				r.bad("C14.L11", shortFn(a.Fn), p.PosOf(a.Pos), "atomic and plain access to "+owner, fmt.Sprintf("%s is accessed through sync/atomic here (held=%s) and plainly in %s at %s (held=%s): an atomic operation on one side and an ordinary load/store on the other do not synchronise with each other, whatever lock the plain side holds", owner, a.Held, shortFn(b.Fn), p.PosOf(b.Pos), b.Held), la.Chain(a.Fn, ""))
 			}
 		}
 		if !written {
